@@ -529,6 +529,11 @@ class SAMIWriter(BaseWriter):
                 return caption.style['class']
         except KeyError:
             pass
+        # the class the style sheet declares for this language, if any (the
+        # caption's own class may be something else, e.g. the id of its P)
+        for selector, rules in captions.get_styles():
+            if rules.get('lang') == lang:
+                return selector
         return lang
 
     def _recreate_stylesheet(self, caption_set):
